@@ -335,7 +335,7 @@ class PythonToIrCompiler:
         # Increment loop variable:
         one = self.builder.emit_const(1, ir.i64)
         i_inc = self.builder.emit_add(i_phi, one, ir.i64)
-        i_phi.set_incoming(body_block, i_inc)
+        i_phi.set_incoming(self.builder.block, i_inc)
 
         # Jump to start again:
         self.builder.emit_jump(test_block)
